@@ -6,6 +6,7 @@ import PdshVerif.Pcp.Statics
 import PdshVerif.Pcp.ClientStatics
 import PdshVerif.Pcp.DeepSession
 import PdshVerif.Pcp.Allocbuf
+import PdshVerif.Pcp.Response
 import Driver.Util
 
 /-! line protocol of the `pcp` engine (C11, C12): the receiver model `sink`, the sender model `send`,
@@ -384,6 +385,13 @@ def handle (line : String) : String :=
     match blk.toNat? with
     | some b => toString (allocSize b BUFSZ)
     | none => "bad-op"
+  | ["resp", n, s] =>
+    match n.toNat?, Hex.decode s with
+    | some n, some s =>
+      let r := callN BUFSZ n s
+      let res := String.ofList (r.1.map fun b => if b then '0' else '1')
+      s!"res={if res.isEmpty then "-" else res} left={r.2.length}"
+    | _, _ => "bad-op"
   | ["cstatics"] =>
     s!"defs={commaJoin clientStatics} forbidden={commaJoin clientProcessWideCalls} " ++
       s!"expandonly={commaJoin clientExpandOnlyCalls}"
